@@ -84,7 +84,7 @@ def run(ctx):
                 cl.transport = rfbgen.FakeTransport(tr)
                 cl.connectionMade()
             else:
-                cl, tr, _ = rfbgen.new_client(kind, password=pw)
+                cl, tr, _ = rfbgen.new_client(kind, factory=r.choice(["standin", "instance", "class"]), password=pw)
             if ver == b"RFB 003.003\n":
                 parts = [ver, struct.pack("!I", 2) + ch]
             else:
@@ -106,7 +106,7 @@ def run(ctx):
             L = r.choice([1, 2, 8, 16, 128])
             mod = (r.getrandbits(8 * L) | 1 | (1 << (8 * L - 1))).to_bytes(L, "big")
             skey = r.getrandbits(8 * L).to_bytes(L, "big")
-            cl, tr, _ = rfbgen.new_client(kind, password="pw", username="user")
+            cl, tr, _ = rfbgen.new_client(kind, factory=r.choice(["standin", "instance", "class"]), password="pw", username="user")
             parts = [b"RFB 003.008\n", bytes([len(offer)]) + bytes(offer), struct.pack("!HH", r.choice([2, 5]), L), mod[:max(1, L // 2)], mod[max(1, L // 2):] + skey[:L - 1]]
             per = rfbgen.feed_impl(cl, tr, parts)
             early = [t for q in per[2:] for t in q if t.startswith("w:")]
